@@ -175,11 +175,13 @@ type pipeSpec struct {
 	sameAst bool // managed: every repetition decorates the SAME *ast.File with a fresh Decorator
 	big     string
 	reuseFR bool // managed: the worker restores all its files through ONE FileRestorer (alone: a fresh one per file)
+	reuseR  bool // managed: the worker restores all its files through ONE Restorer, asking it for a new FileRestorer (with this file's aliases) per file
 }
 
 // frState is a worker's reused FileRestorer (concurrent phase only; the reference uses fresh ones).
 type frState struct {
 	fr *decorator.FileRestorer
+	r  *decorator.Restorer
 	pw *faults.Pkg
 }
 
@@ -243,7 +245,7 @@ func errClass(err error) string {
 // repetition numbers. y is the decision-point callback (nil in the sequential reference).
 func execPipe(pidx int, p pipeSpec, e env, y func(string), res *[]opResult, reuse ...*frState) {
 	var fs *frState
-	if len(reuse) > 0 && p.reuseFR {
+	if len(reuse) > 0 && (p.reuseFR || p.reuseR) {
 		fs = reuse[0]
 	}
 	var shared *parsed
@@ -405,7 +407,21 @@ func execOnce(p pipeSpec, e env, y func(string), out *[]opResult, shared *parsed
 	yield("op:restore")
 	var pw *faults.Pkg
 	var fr *decorator.FileRestorer
-	if fs != nil && fs.fr != nil {
+	if fs != nil && p.reuseR {
+		// the worker's own Restorer, reused the way Package.save reuses one: a NEW FileRestorer per
+		// file, which starts without any alias of the files before it
+		if fs.r == nil {
+			fs.pw = &faults.Pkg{Inner: e.name, Yield: y}
+			fs.r = decorator.NewRestorerWithImports(LocalPath, fs.pw)
+		}
+		pw = fs.pw
+		pw.Seen = nil
+		fs.r.Extras = p.extras
+		fr = fs.r.FileRestorer()
+		for k, v := range p.alias {
+			fr.Alias[k] = v
+		}
+	} else if fs != nil && fs.fr != nil {
 		// the worker's own FileRestorer, reused: RestoreFile resets it but leaves Name and Alias alone
 		fr, pw = fs.fr, fs.pw
 		pw.Seen = nil
@@ -726,13 +742,22 @@ func runScheduled(run *core.Run) {
 				}
 				ps[j].alias, ps[j].extras, ps[j].reuseFR = alias, extras, true
 			}
+		} else if t.Bool(1, 3) {
+			// this worker restores all its files through one Restorer, a new FileRestorer (with
+			// that file's own aliases) for each
+			for j := range ps {
+				if ps[j].kind == pipePlain || ps[j].kind == pipeSave || ps[j].kind == pipeParseShared || ps[j].kind == pipeFragment {
+					continue
+				}
+				ps[j].reuseR = true
+			}
 		}
 		w.workers = append(w.workers, ps)
 	}
 	run.Describe("scheduled: %d workers, shared ident resolver %s, shared name resolver %s, failing paths %v / %v, panicking paths %v, own guess resolvers=%v, equal sources=%v", nworkers, identKindNames[w.identKind], faults.KindName(w.nameKind), keys(w.failPaths), keys(w.nameFailPaths), keys(w.panicPaths), w.ownGuess, sameSrc)
 	for i, ps := range w.workers {
 		for j, p := range ps {
-			run.Describe("worker %d pipe %d kind=%d reps=%d extras=%v split=%v sameAst=%v reuseFR=%v big=%q edits=%v alias=%v src=%d bytes hash %s", i, j, p.kind, p.reps, p.extras, p.split, p.sameAst, p.reuseFR, p.big, p.script, p.alias, len(p.src), dump.HashString(p.src))
+			run.Describe("worker %d pipe %d kind=%d reps=%d extras=%v split=%v sameAst=%v reuseFR=%v reuseR=%v big=%q edits=%v alias=%v src=%d bytes hash %s", i, j, p.kind, p.reps, p.extras, p.split, p.sameAst, p.reuseFR, p.reuseR, p.big, p.script, p.alias, len(p.src), dump.HashString(p.src))
 		}
 	}
 
